@@ -1,5 +1,5 @@
 #!/usr/bin/env python3
-"""Fill the measured numbers and the seeded-changes table into DESIGN.md (placeholders in capitals); idempotent on a DESIGN.md that still has the placeholders."""
+"""Fill the measured numbers and the seeded-changes table into DESIGN.md (placeholders in capitals); the values sit between HTML comment markers and are refreshed by every run."""
 import glob, os, re, subprocess
 HERE = os.path.dirname(os.path.dirname(os.path.abspath(__file__)))
 L = os.path.join(HERE, "lean")
@@ -12,6 +12,11 @@ s = open(os.path.join(HERE, "DESIGN.md")).read()
 rep = {"MODEL_LINES": fmt(lines("Simpleline/Model/*.lean")), "SPEC_LINES": fmt(lines("Simpleline/Spec/*.lean")), "LEMMA_LINES": fmt(lines("Simpleline/Lemmas/*.lean")),
        "LEMMA_FILES": str(len(glob.glob(os.path.join(L, "Simpleline/Lemmas/*.lean")))), "PROPS_LINES": fmt(lines("Simpleline/Props/*.lean")), "PROPS_FILES": str(len(props)),
        "THEOREM_COUNT": str(theorems), "DRIVER_LINES": fmt(lines("Driver/*.lean")), "SEEDED_TABLE_PLACEHOLDER": table.strip()}
-for k, v in rep.items(): s = s.replace(k, v)
+for k, v in rep.items():
+    # first run: bare placeholder -> marked value; later runs: refresh the marked value
+    pat = re.compile(r"<!--%s-->.*?<!---->" % k, re.S)
+    new = "<!--%s-->%s<!---->" % (k, ("\n" + v + "\n") if "\n" in v else v)
+    if pat.search(s): s = pat.sub(lambda m: new, s)
+    else: s = s.replace(k, new)
 open(os.path.join(HERE, "DESIGN.md"), "w").write(s)
 print({k: (v if len(v) < 30 else "...") for k, v in rep.items()})
